@@ -142,3 +142,26 @@ def outStructureResolutionOk (r : ClassRow) : Bool :=
   else m == some "AbstractLinearOperator.out_structure"
 
 end Furax
+
+namespace Furax
+open Generated
+
+/-- the classes that override `as_matrix`, and with which function -/
+def asMatrixResolutionOk (r : ClassRow) : Bool :=
+  let expected :=
+    if r.name == "IdentityOperator" then "IdentityOperator.as_matrix"
+    else if r.name == "HomothetyOperator" then "HomothetyOperator.as_matrix"
+    else if ["DiagonalOperator", "DiagonalInverseOperator"].contains r.name then "DiagonalOperator.as_matrix"
+    else if r.name == "AdditionOperator" then "AdditionOperator.as_matrix"
+    else if r.name == "BlockRowOperator" then "BlockRowOperator.as_matrix"
+    else if r.name == "BlockDiagonalOperator" then "BlockDiagonalOperator.as_matrix"
+    else if r.name == "BlockColumnOperator" then "BlockColumnOperator.as_matrix"
+    else if ["AbstractRavelOrReshapeOperator", "RavelOperator", "ReshapeOperator"].contains r.name
+      then "AbstractRavelOrReshapeOperator.as_matrix"
+    else if r.name == "SymmetricBandToeplitzOperator" then "SymmetricBandToeplitzOperator.as_matrix"
+    else if ["AbstractLazyInverseOperator", "InverseOperator", "AbstractLazyInverseOrthogonalOperator",
+             "QURotationTransposeOperator"].contains r.name then "AbstractLazyInverseOperator.as_matrix"
+    else "AbstractLinearOperator.as_matrix"
+  r.method "as_matrix" == some expected
+
+end Furax
